@@ -22,6 +22,7 @@ func init() {
 			"C35.R2": "K8: per (P, n) — balance within one under contiguous assignment",
 			"C35.R3": "K8: CRC table and constants equal the independent reference",
 			"C35.R4": "ownership/taint: the validated table is never written through a FindTags result (it stays the constant that was validated)",
+			"C35.R5": "value flow: FindTags returns a bundled table entry itself, nothing derived",
 		},
 		Exhaustive: true,
 		Technique:  "constant-table validation: exhaustive evaluation of package-level literals against an independent reference (CRC16-XMODEM, contiguous slot assignment)",
@@ -66,6 +67,7 @@ func refNode(slot, n int) int {
 func runC35(c *Ctx) {
 	w := c.W
 	runC35Immutable(c)
+	runC35Lookup(c)
 	pkg := w.ByPath[longPkg("internal/redispartition")]
 	if !c.Anchor("C35.R1", "package internal/redispartition", pkg != nil) {
 		return
